@@ -23,7 +23,20 @@ structure HtmlCfg where
   indent : Nat := 0
   escapeURLs : Bool := true
   omitMeta : Bool := false
+  /-- prefixes the installed `PrefixResolver` maps to a non-empty namespace (`doPushHasNamespace`) -/
+  nsPrefixes : List Str := []
+  /-- source fact (call-point translator): does `FormatterToXML::charactersRaw` set `m_isprevtext` -/
+  rawSetsPrevText : Bool := false
 deriving Repr, Inhabited
+
+/-- `m_spaceBeforeClose` of the FormatterToXML base -/
+def HtmlCfg.spaceBeforeClose (c : HtmlCfg) : Bool :=
+  !c.doctypePublic.isEmpty && xhtmlDocType.isPrefixOf c.doctypePublic
+
+/-- `doPushHasNamespace`: the element name's prefix (empty when there is no colon) resolves to a non-empty
+namespace.  The unprefixed case (default namespace) is not generated and answers `false`. -/
+def hasNamespace (c : HtmlCfg) (name : Str) : Bool :=
+  name.contains 58 && c.nsPrefixes.contains (name.takeWhile (· != 58))
 
 /-- `compareIgnoreCaseASCII` order of the table: shorter names first, then by upper-cased characters -/
 def nameLt (a b : List Nat) : Bool :=
@@ -55,6 +68,7 @@ def html4Void : List Str :=
 
 inductive HTok where
   | t (x : Tok)
+  | xmlOpen (name : Str) (attrs : List (Str × Str))   -- start tag written by the inherited FormatterToXML::startElement
   | metaTag (encoding : Str)
   | doctypeHtml (pub sys : Str)
 deriving Repr, DecidableEq, Inhabited
@@ -72,6 +86,7 @@ structure HSt where
   isFirstElement : Bool := true
   elementLevel : Nat := 0
   propsStack : List Nat := []
+  hasNamespaceStack : List Bool := []
 deriving Repr, Inhabited
 
 /-- `FormatterToXML::indent(n)` -/
@@ -90,36 +105,49 @@ def writeParentTagEnd (st : HSt) : HSt × List HTok :=
 def startDocument (cfg : HtmlCfg) : HSt × List HTok :=
   let st : HSt := {}
   if !cfg.doctypeSystem.isEmpty || !cfg.doctypePublic.isEmpty then
-    (st, [HTok.doctypeHtml cfg.doctypePublic cfg.doctypeSystem, HTok.t .nl])
+    (st, [HTok.doctypeHtml cfg.doctypePublic cfg.doctypeSystem, HTok.t .hnl])
   else (st, [])
 
-def startElement (cfg : HtmlCfg) (st : HSt) (name : Str) (attrs : List (Str × Str)) : HSt × List HTok :=
+/-- the indentation decision of `FormatterToHTML::startElement` (lines 318-329) -/
+def startIndentBlock (cfg : HtmlCfg) (st : HSt) (isBlock : Bool) : HSt × List HTok :=
+  if st.ispreserve then ({ st with ispreserve := false }, [])
+  else if cfg.doIndent && st.elementLevel > 0 && !st.isFirstElement && (!st.inBlockElem || isBlock) then
+    let st := { st with startNewLine := true }
+    (st, indentToks cfg st)
+  else (st, [])
+
+/-- the HEAD element gets its `>` at once and, unless omitted, the META tag (lines 353-370) -/
+def metaBlock (cfg : HtmlCfg) (st : HSt) (fl : Nat) : HSt × List HTok :=
+  if has fl flagHEADELEM then
+    let (st, p) := writeParentTagEnd st
+    if !cfg.omitMeta then
+      (st, p ++ (if cfg.doIndent then indentToks cfg st else []) ++ [HTok.metaTag cfg.encoding])
+    else (st, p)
+  else (st, [])
+
+def htmlStartElement (cfg : HtmlCfg) (st : HSt) (name : Str) (attrs : List (Str × Str)) : HSt × List HTok :=
   let (st, o1) := writeParentTagEnd st
   let fl := findFlags name
   let st := { st with propsStack := fl :: st.propsStack }
   let isBlock := has fl flagBLOCK
-  let st := if has fl flagSCRIPTELEM then { st with inScriptElemStack := true :: st.inScriptElemStack }
-            else { st with inScriptElemStack := st.inScriptElemStack.headD false :: st.inScriptElemStack }
+  -- SCRIPTELEM pushes true, everything else repeats the enclosing value
+  let st := { st with inScriptElemStack :=
+                (if has fl flagSCRIPTELEM then true else st.inScriptElemStack.headD false) :: st.inScriptElemStack }
   let st := { st with elementLevel := st.elementLevel + 1 }
-  let (st, o2) :=
-    if st.ispreserve then ({ st with ispreserve := false }, [])
-    else if cfg.doIndent && st.elementLevel > 0 && !st.isFirstElement && (!st.inBlockElem || isBlock) then
-      let st := { st with startNewLine := true }
-      (st, indentToks cfg st)
-    else (st, [])
+  let (st, o2) := startIndentBlock cfg st isBlock
   let st := { st with inBlockElem := !isBlock, isRawStack := has fl flagRAW :: st.isRawStack }
   let o3 := [HTok.t (.open name attrs)]
   let st := { st with elemStack := false :: st.elemStack, currentIndent := st.currentIndent + cfg.indent, isprevtext := false }
-  let (st, o4) :=
-    if has fl flagHEADELEM then
-      let (st, p) := writeParentTagEnd st
-      if !cfg.omitMeta then
-        (st, p ++ (if cfg.doIndent then indentToks cfg st else []) ++ [HTok.metaTag cfg.encoding])
-      else (st, p)
-    else (st, [])
+  let (st, o4) := metaBlock cfg st fl
   ({ st with isFirstElement := false }, o1 ++ o2 ++ o3 ++ o4)
 
-def endElement (cfg : HtmlCfg) (st : HSt) (name : Str) : HSt × List HTok :=
+/-- the indentation decision of `FormatterToHTML::endElement` (lines 418-429) -/
+def endIndentBlock (cfg : HtmlCfg) (st : HSt) (isBlock : Bool) : HSt × Bool :=
+  if st.ispreserve then ({ st with ispreserve := false }, false)
+  else if cfg.doIndent && (!st.inBlockElem || isBlock) then ({ st with startNewLine := true }, true)
+  else (st, false)
+
+def htmlEndElement (cfg : HtmlCfg) (st : HSt) (name : Str) : HSt × List HTok :=
   let st := { st with currentIndent := st.currentIndent - cfg.indent }
   let (hasChildNodes, stack) := match st.elemStack with
     | [] => (false, [])
@@ -128,10 +156,7 @@ def endElement (cfg : HtmlCfg) (st : HSt) (name : Str) : HSt × List HTok :=
   let fl := st.propsStack.headD htmlDummyFlags
   let st := { st with propsStack := st.propsStack.tail }
   let isBlock := has fl flagBLOCK
-  let (st, doInd) :=
-    if st.ispreserve then ({ st with ispreserve := false }, false)
-    else if cfg.doIndent && (!st.inBlockElem || isBlock) then ({ st with startNewLine := true }, true)
-    else (st, false)
+  let (st, doInd) := endIndentBlock cfg st isBlock
   let st := { st with inBlockElem := !isBlock }
   let isEmpty := has fl flagEMPTY
   let o :=
@@ -142,6 +167,45 @@ def endElement (cfg : HtmlCfg) (st : HSt) (name : Str) : HSt × List HTok :=
   let st := if has fl flagWHITESPACESENSITIVE then { st with ispreserve := true } else st
   let st := if hasChildNodes then { st with preserves := st.preserves.tail } else st
   ({ st with isprevtext := false, elementLevel := st.elementLevel - 1 }, o)
+
+/-- inherited `FormatterToXML::startElement` (namespaced element; the DOCTYPE was already handled by
+`FormatterToHTML::startDocument`, which clears `m_needToOutputDocTypeDecl`) -/
+def xmlStartElement (cfg : HtmlCfg) (st : HSt) (name : Str) (attrs : List (Str × Str)) : HSt × List HTok :=
+  let (st, o1) := writeParentTagEnd st
+  let st := { st with ispreserve := false }
+  let o2 := if shouldIndent cfg st && st.startNewLine then indentToks cfg st else []
+  let st := { st with startNewLine := true }
+  let o3 := [HTok.xmlOpen name attrs]
+  ({ st with elemStack := false :: st.elemStack, currentIndent := st.currentIndent + cfg.indent, isprevtext := false },
+   o1 ++ o2 ++ o3)
+
+/-- inherited `FormatterToXML::endElement` -/
+def xmlEndElement (cfg : HtmlCfg) (st : HSt) (name : Str) : HSt × List HTok :=
+  let st := { st with currentIndent := st.currentIndent - cfg.indent }
+  let (hasChildNodes, stack) := match st.elemStack with
+    | [] => (false, [])
+    | b :: r => (b, r)
+  let st := { st with elemStack := stack }
+  if hasChildNodes then
+    let o := (if shouldIndent cfg st then indentToks cfg st else []) ++ [HTok.t (.close name)]
+    let st := match st.preserves with
+      | [] => { st with ispreserve := false }
+      | b :: r => { st with ispreserve := b, preserves := r }
+    ({ st with isprevtext := false }, o)
+  else
+    ({ st with isprevtext := false }, [HTok.t (.emptyEnd cfg.spaceBeforeClose)])
+
+/-- `FormatterToHTML::startElement`: `pushHasNamespace` decides between the inherited XML path and the HTML path -/
+def startElement (cfg : HtmlCfg) (st : HSt) (name : Str) (attrs : List (Str × Str)) : HSt × List HTok :=
+  let ns := hasNamespace cfg name
+  let st := { st with hasNamespaceStack := ns :: st.hasNamespaceStack }
+  if ns then xmlStartElement cfg st name attrs else htmlStartElement cfg st name attrs
+
+/-- `FormatterToHTML::endElement`: `popHasNamespace` -/
+def endElement (cfg : HtmlCfg) (st : HSt) (name : Str) : HSt × List HTok :=
+  let ns := st.hasNamespaceStack.headD false
+  let st := { st with hasNamespaceStack := st.hasNamespaceStack.tail }
+  if ns then xmlEndElement cfg st name else htmlEndElement cfg st name
 
 def characters (cfg : HtmlCfg) (st : HSt) (str : Str) : HSt × List HTok :=
   let (st, o) :=
@@ -158,9 +222,12 @@ def characters (cfg : HtmlCfg) (st : HSt) (str : Str) : HSt × List HTok :=
       ({ st with ispreserve := true }, p ++ [HTok.t (.text str)])
   ({ st with isprevtext := true }, o)
 
-def charactersRaw (st : HSt) (str : Str) : HSt × List HTok :=
+/-- `FormatterToXML::charactersRaw` (disable-output-escaping) -/
+def charactersRaw (cfg : HtmlCfg) (st : HSt) (str : Str) : HSt × List HTok :=
   let (st, p) := writeParentTagEnd st
-  ({ st with ispreserve := true }, p ++ [HTok.t (.raw str)])
+  let st := { st with ispreserve := true }
+  let st := if cfg.rawSetsPrevText then { st with isprevtext := true } else st
+  (st, p ++ [HTok.t (.raw str)])
 
 def comment (cfg : HtmlCfg) (st : HSt) (data : Str) : HSt × List HTok :=
   let (st, p) := writeParentTagEnd st
@@ -171,7 +238,7 @@ def procInstr (cfg : HtmlCfg) (st : HSt) (target data : Str) : HSt × List HTok 
   let (st, p) := writeParentTagEnd st
   let o := if shouldIndent cfg st then indentToks cfg st else []
   ({ st with startNewLine := true },
-   p ++ o ++ [HTok.t (.pi target data)] ++ (if st.elementLevel = 0 then [HTok.t .nl] else []))
+   p ++ o ++ [HTok.t (.pi target data)] ++ (if st.elementLevel = 0 then [HTok.t .hnl] else []))
 
 def endDocument (cfg : HtmlCfg) (st : HSt) : List HTok :=
   if cfg.doIndent && !st.isprevtext then [HTok.t .nl] else []
@@ -181,7 +248,7 @@ def step (cfg : HtmlCfg) (st : HSt) : Ev → HSt × List HTok
   | .endElement n => endElement cfg st n
   | .characters t => characters cfg st t
   | .cdata t => characters cfg st t        -- not generated for HTML (cdata-section-elements is ignored)
-  | .raw t => charactersRaw st t
+  | .raw t => charactersRaw cfg st t
   | .comment t => comment cfg st t
   | .pi t d => procInstr cfg st t d
 
@@ -207,7 +274,7 @@ def plainTextChar (c : Nat) : Option Str :=
 def plainText (t : Str) : Option Str := (t.mapM plainTextChar).map List.flatten
 
 def safeAttrChar (c : Nat) : Bool :=
-  (48 ≤ c && c ≤ 57) || (65 ≤ c && c ≤ 90) || (97 ≤ c && c ≤ 122) || c = 32 || c = 46 || c = 95 || c = 47 || c = 45
+  (48 ≤ c && c ≤ 57) || (65 ≤ c && c ≤ 90) || (97 ≤ c && c ≤ 122) || c = 32 || c = 46 || c = 95 || c = 47 || c = 45 || c = 58
 
 /-- `processAttribute` for values without special characters -/
 def renderAttr (ename : Str) (a : Str × Str) : Option Str :=
@@ -215,12 +282,19 @@ def renderAttr (ename : Str) (a : Str × Str) : Option Str :=
   if (a.2.isEmpty || upper a.1 == upper a.2) && has fl flagATTREMPTY then some (s " " ++ a.1)
   else if a.2.all safeAttrChar then some (s " " ++ a.1 ++ s "=\"" ++ a.2 ++ s "\"") else none
 
+/-- `FormatterToXML::processAttribute` for values without special characters -/
+def renderXmlAttr (a : Str × Str) : Option Str :=
+  if a.2.all safeAttrChar then some (s " " ++ a.1 ++ s "=\"" ++ a.2 ++ s "\"") else none
+
 def renderTok : HTok → Option Str
   | .doctypeHtml pub sys =>
     some (s "<!DOCTYPE HTML" ++ (if pub.isEmpty then [] else s " PUBLIC \"" ++ pub ++ s "\"")
       ++ (if sys.isEmpty then [] else (if pub.isEmpty then s " SYSTEM" else []) ++ s " \"" ++ sys ++ s "\"") ++ s ">")
   | .metaTag enc => some (s "<META http-equiv=\"Content-Type\" content=\"text/html; charset=" ++ (if enc.isEmpty then utf8 else enc) ++ s "\">")
   | .t (.open name attrs) => (attrs.mapM (renderAttr name)).map fun l => s "<" ++ name ++ l.flatten
+  | .xmlOpen name attrs => (attrs.mapM renderXmlAttr).map fun l => s "<" ++ name ++ l.flatten
+  | .t (.emptyEnd sp) => some ((if sp then s " " else []) ++ s "/>")
+  | .t .hnl => some [10]
   | .t .gt => some (s ">")
   | .t (.close name) => some (s "</" ++ name ++ s ">")
   | .t (.text t) => plainText t
